@@ -488,7 +488,7 @@ impl Check for C02 {
         let thr = (*rng.pick(&THRESHOLDS)).to_string();
         let pool = &POOLS[lang];
         let cfg = GenCfg::swarm(rng);
-        let len = rng.range(0, 30);
+        let len = if rng.chance(1, 48) { rng.range(60, 300) } else { rng.range(0, 30) };
         let mut toks = gen_stream(rng, pool, &cfg, len);
         let hint_pct = *rng.pick(&[0u32, 0, 0, 10]);
         for t in toks.iter_mut() {
